@@ -395,7 +395,7 @@ def correspond(rep, name, cases, theorem, compare_model=True, impl_timeout=900):
         out[cid] = (i, m, sp)
         if i:
             distinct.add(text.split(" ", 2)[2])
-        if i != sp:
+        if sp != "UNSPECIFIED" and i != sp:
             rep.fail("implementation differs from the specification on this input",
                      {"case": text, "impl": i, "spec": sp, "model": m, "tags": tags,
                       "theorem": theorem, "failing_input_found": True}, tags)
